@@ -106,33 +106,62 @@ def coq_make(targets=None):
         return p.returncode == 0, p.stdout
 
 
-def coqc_file(path, cwd=None, timeout=1200):
+def coqc_file(path, cwd=None, timeout=1200, extra=()):
     """compile one file against the built development; returns (ok, output)"""
-    p = sh(["coqc", "-Q", COQ, "Anko", path], cwd=cwd or os.path.dirname(path), check=False, timeout=timeout)
+    p = sh(["coqc", "-Q", COQ, "Anko"] + list(extra) + [path], cwd=cwd or os.path.dirname(path), check=False,
+           timeout=timeout)
     return p.returncode == 0, p.stdout
 
 
+def coq_sources_hash():
+    h = hashlib.sha256()
+    for root, dirs, files in os.walk(COQ):
+        dirs.sort()
+        for f in sorted(files):
+            if f.endswith(".v") or f == "_CoqProject":
+                p = os.path.join(root, f)
+                h.update(os.path.relpath(p, COQ).encode())
+                h.update(open(p, "rb").read())
+    return h.hexdigest()[:20]
+
+
 def property_obligations(pid, extra_files=()):
-    """Re-check Properties/<pid>.v (and the obligation files it needs) with coqc
-    and collect theorem names and Print Assumptions output.
-    Returns dict(obligations, discharged, theorems, assumptions, failed, log)."""
-    files = list(extra_files) + [os.path.join(COQ, "Properties", pid + ".v")]
-    theorems, failed, assumptions, logs = [], [], [], []
-    for f in files:
-        src = open(f).read()
+    """Re-check Properties/<pid>.v with coqc against the built development and collect
+    theorem names and the Print Assumptions output.  The hand-written development does not
+    depend on /repo, so the result is cached under .build keyed by the content hash of every
+    .v file; files passed in extra_files (regenerated tables, obligations on them) are
+    compiled on every call.
+    Returns dict(obligations, discharged, theorems, axioms, closed_count, failed)."""
+    files = [os.path.join(COQ, "Properties", pid + ".v")]
+    cache = os.path.join(BUILD, "obl-%s-%s.json" % (pid, coq_sources_hash()))
+    results = []
+    if os.path.exists(cache):
+        results = json.load(open(cache))
+    else:
+        for f in files:
+            with Lock("coq"):
+                ok, out = coqc_file(f, cwd=COQ)
+            results.append({"file": f, "ok": ok, "out": out})
+        if all(r["ok"] for r in results):
+            os.makedirs(BUILD, exist_ok=True)
+            json.dump(results, open(cache, "w"))
+    for f in extra_files:
+        ok, out = coqc_file(f[0], cwd=f[1], extra=f[2] if len(f) > 2 else ())
+        results.append({"file": f[0], "ok": ok, "out": out})
+    theorems, failed, assumptions, closed = [], [], [], 0
+    for r in results:
+        src = open(r["file"]).read()
+        src = re.sub(r"\(\*.*?\*\)", "", src, flags=re.S)
         names = re.findall(r"^\s*(?:Theorem|Lemma|Corollary|Example)\s+([A-Za-z0-9_']+)", src, re.M)
-        with Lock("coq"):
-            ok, out = coqc_file(f, cwd=COQ)
-        logs.append(out)
-        if ok:
+        if r["ok"]:
             theorems += names
         else:
-            failed.append({"file": os.path.relpath(f, VERIF), "theorems": names, "error": out[-1500:]})
-        # Print Assumptions output: either "Closed under the global context" or "Axioms:" blocks
-        for m in re.finditer(r"Axioms:\n((?:.+\n)+?)(?=\S|\Z)", out):
+            failed.append({"file": os.path.relpath(r["file"], VERIF) if r["file"].startswith(VERIF) else r["file"],
+                           "theorems": names, "error": r["out"][-1500:]})
+        for m in re.finditer(r"Axioms:\n((?:.+\n)+?)(?=\S|\Z)", r["out"]):
             assumptions.append(m.group(1).strip())
+        closed += r["out"].count("Closed under the global context")
     n_total = len(theorems) + sum(len(x["theorems"]) for x in failed)
-    closed = sum(o.count("Closed under the global context") for o in logs)
     return {"obligations": n_total, "discharged": len(theorems), "theorems": theorems,
             "axioms": sorted(set(assumptions)), "closed_count": closed, "failed": failed}
 
